@@ -346,6 +346,12 @@ def register4(E):
         for i in idx:
             if truth(e, e.closure_call(a[1], [xs[i]])): return SOME(i)
         return NONE()
+    @R(r'^(std|core)::slice::from_ref::<')
+    def _(e, c, a):
+        r = a[0]
+        if not isinstance(r, Ref): raise EngineError('slice::from_ref of a non-reference')
+        if isinstance(r.c, list): return SliceRef(r.c, r.k, r.k + 1)
+        return SliceRef([r.get()], 0, 1)
     @R(r'^(std|core)::mem::(drop|forget)::<')
     def _(e, c, a): return UNIT
     @R(r'as Itertools>::positions::<')
